@@ -552,6 +552,8 @@ type LoopInvClient interface {
 type Exec struct {
 	StrictConv     bool // integer conversions that may change the value yield opaque terms
 	NormSubslice   bool // s[lo:hi][j] is s[lo+j], len(s[lo:hi]) is hi-lo (opaque slices)
+	curSt          *State // the state of the instruction being interpreted (for values whose content is kept per state)
+	FlagExits      bool // a back edge whose values decide a flag tested alone by the header leaves the loop directly (for done := false; !done; ...)
 	PreciseExits   bool // loop exits are recomputed from the entry values and from each back edge's values (rotation)
 	Comprehend     bool // summarise positional list comprehensions (exec_fam.go)
 	NComprehended  int
@@ -802,6 +804,13 @@ func (x *Exec) val(fr *Frame, v ssa.Value) *Term {
 		return mk("builtin", v.Name(), nil)
 	}
 	if t, ok := fr.env[v]; ok {
+		if t.Op == "list" && x.curSt != nil && strings.HasPrefix(t.Aux, "made:") {
+			// a slice made non-empty and filled by index: its members are kept per
+			// state (the frame of a loop exit still holds the value as made)
+			if c, ok := x.curSt.mem["fwd:"+t.Aux]; ok && c.val != nil {
+				return c.val
+			}
+		}
 		return t
 	}
 	fatalf("pathsim: value %s (%T) in %s has no binding", v.Name(), v, funcKey(fr.fn))
@@ -1115,6 +1124,7 @@ func (x *Exec) execFrom(fr *Frame, b *ssa.BasicBlock, pred *ssa.BasicBlock, idx 
 		}
 		for i := idx; i < len(b.Instrs); i++ {
 			ins := b.Instrs[i]
+			x.curSt = st
 			st.steps++
 			x.NStates++
 			if x.NStates > maxTotalSteps {
@@ -1444,11 +1454,13 @@ func (x *Exec) execLoopUncached(fr *Frame, li *loopInfo, pred *ssa.BasicBlock, s
 		var backs []*State
 		var backOuts []blockOut
 		var exits []blockOut
+		var directExits []blockOut
 		newPhi := map[*ssa.Phi]*Term{}
 		for ph, v := range phiVals {
 			newPhi[ph] = v
 		}
 		for _, o := range outs {
+			x.curSt = o.st
 			if o.kind == outBackEdge {
 				x.C.OnBackEdge(x, o.st, o.fr, cur)
 				pi := predIdx(o.from)
@@ -1478,6 +1490,14 @@ func (x *Exec) execLoopUncached(fr *Frame, li *loopInfo, pred *ssa.BasicBlock, s
 						}
 					}
 					x.marks = x.marks[:len(x.marks)-1]
+				}
+				if x.FlagExits && pi >= 0 {
+					if ex, ok := x.flagExit(li, o, phis, pi, cur, all); ok {
+						// the header's test is a flag this iteration has just decided:
+						// this path leaves the loop instead of being joined into its head
+						directExits = append(directExits, ex)
+						continue
+					}
 				}
 				backOuts = append(backOuts, o)
 				backs = append(backs, x.renameBack(o.st, cur, all))
@@ -1574,6 +1594,7 @@ func (x *Exec) execLoopUncached(fr *Frame, li *loopInfo, pred *ssa.BasicBlock, s
 					exits = pe
 				}
 			}
+			exits = append(exits, directExits...)
 			var res []blockOut
 			for _, e := range exits {
 				if e.kind == outLoopExit {
@@ -1603,6 +1624,79 @@ func (x *Exec) execLoopUncached(fr *Frame, li *loopInfo, pred *ssa.BasicBlock, s
 	}
 	fatalf("pathsim: loop at block %d of %s did not stabilise", li.header.Index, funcKey(fr.fn))
 	return nil
+}
+
+// flagExit: the header consists of phis and a branch on one of them (or its
+// negation); the value this back edge hands to that phi is a decided boolean
+// that sends control out of the loop.  The result is the exit as seen from
+// this back edge (marks of the current iteration renamed like for a join).
+func (x *Exec) flagExit(li *loopInfo, o blockOut, phis []*ssa.Phi, pi int, cur, all *Term) (blockOut, bool) {
+	h := li.header
+	var iff *ssa.If
+	for _, ins := range h.Instrs {
+		switch v := ins.(type) {
+		case *ssa.Phi, *ssa.DebugRef:
+		case *ssa.UnOp:
+			if v.Op != token.NOT {
+				return blockOut{}, false
+			}
+		case *ssa.If:
+			iff = v
+		default:
+			return blockOut{}, false
+		}
+	}
+	if iff == nil || len(h.Succs) != 2 {
+		return blockOut{}, false
+	}
+	neg := false
+	c := iff.Cond
+	if u, ok := c.(*ssa.UnOp); ok && u.Op == token.NOT && u.Block() == h {
+		neg = true
+		c = u.X
+	}
+	ph, ok := c.(*ssa.Phi)
+	if !ok || ph.Block() != h {
+		return blockOut{}, false
+	}
+	v := x.val(o.fr, ph.Edges[pi])
+	t := o.st.truth(v)
+	if v == tTrue {
+		t = 1
+	} else if v == tFalse {
+		t = 0
+	}
+	if t < 0 {
+		return blockOut{}, false
+	}
+	taken := t == 1
+	if neg {
+		taken = !taken
+	}
+	succ := h.Succs[1]
+	if taken {
+		succ = h.Succs[0]
+	}
+	if li.blocks[succ] {
+		return blockOut{}, false
+	}
+	fo := o.fr.clone()
+	for _, p2 := range phis {
+		fo.env[p2] = x.val(o.fr, p2.Edges[pi]).subst(cur, all)
+	}
+	for _, ins := range h.Instrs {
+		if u, ok := ins.(*ssa.UnOp); ok {
+			fo.env[u] = tNot(fo.env[u.X])
+			if fo.env[u.X] == tTrue {
+				fo.env[u] = tFalse
+			} else if fo.env[u.X] == tFalse {
+				fo.env[u] = tTrue
+			}
+		}
+	}
+	so := x.renameBack(o.st, cur, all)
+	so.note(token.NoPos, "the loop's flag %s is decided by this iteration: leaves the loop", ph.Name())
+	return blockOut{kind: outLoopExit, st: so, fr: fo, target: succ, from: h}, true
 }
 
 // invariantTerm: built from parameters and constants only, so its value
